@@ -10,9 +10,9 @@ LEVEL_RULE = ("pairs (event, event with exactly one change) over all change kind
               "of children, a leaf's duration by >= 1 tick, a tag, an additional parameter on a leaf (changed / added / removed), "
               "the tempo of any node: bpm, or only later points of a trajectory = finding F1), identical pairs, copies, and non-events "
               "(None, numbers, plain lists, strings, objects); trees depth <= 4 with tags, tempi (direct and trajectories) and extra "
-              "leaf attributes. Observed: a==b, b==a, a!=b, b!=a, reflexivity, copy()==source, destructive_copy()==source. "
+              "leaf attributes (integers, and None / string / tuple / float values). Observed: a==b, b==a, a!=b, b!=a, reflexivity, copy()==source, destructive_copy()==source. "
               "non-trivial = the change is located at depth >= 2")
-ASSUMPTIONS = ["attribute values are modelled as integers, attribute names as identifiers; tempo equality as the code defines it (bpm at time 0)",
+ASSUMPTIONS = ["attribute values are modelled as integers (each non-numeric value used by the generator stands for one distinct negative integer), attribute names as identifiers; tempo equality as the code defines it (bpm at time 0)",
                "the model is tied to /repo by this run's differential correspondence (sampled)"]
 TRUSTED = ["harness/impl_m4.py (builds the objects, evaluates ==/!= both ways, copies)"]
 U = 2500000000
@@ -30,7 +30,7 @@ def tempo(rng):
 def tree(rng, depth):
     if depth == 0 or rng.random() < 0.3:
         extra = sorted(set(rng.randint(1, 4) for _ in range(rng.choice([0, 0, 1, 2]))))
-        return ["L", rng.randint(0, 5) * U, rng.choice([0, 0, 1, 2]), tempo(rng), [[n, rng.randint(0, 3)] for n in extra]]
+        return ["L", rng.randint(0, 5) * U, rng.choice([0, 0, 1, 2]), tempo(rng), [[n, rng.choice([0, 1, 2, 3, 3, -1, -1, -2, -3, -4])] for n in extra]]
     return [rng.choice("SSP"), rng.choice([0, 0, 1, 2]), tempo(rng)] + [tree(rng, depth - 1) for _ in range(rng.choice([0, 1, 2, 3]))]
 
 
@@ -145,14 +145,24 @@ def oracle(case, io, mo):
     if kind == "non-event" and e1 != "0":
         return "an event equals a non-event"
     if kind not in ("same", "non-event") and e1 != "0":
-        if kind == "tempo-rest":
+        if kind == "tempo-rest" or first_bpm_only(case[1]) == first_bpm_only(case[2]):
+            # the single change (here possibly a swap of two children) is only visible in tempo points after time 0
             return "[F1] events differing only in tempo points after time 0 compare equal"
         return f"events differing in {kind} compare equal"
     return None
 
 
+def first_bpm_only(t):
+    """the tree with every tempo reduced to its bpm at time 0"""
+    if t[0] == "L":
+        return [t[0], t[1], t[2], t[3][:1], t[4]]
+    if t[0] in ("S", "P"):
+        return [t[0], t[1], t[2][:1]] + [first_bpm_only(c) for c in t[3:]]
+    return t
+
+
 def known(f, case, msg, io):
-    return f.get("id") == "F1" and (msg or "").startswith("[F1]") and case[3] == "tempo-rest"
+    return f.get("id") == "F1" and (msg or "").startswith("[F1]")
 
 
 def nontrivial(case, io):
